@@ -350,7 +350,7 @@ Fixpoint get_r (mem_read : bool) (e : expr) : list expr :=
   | ECond c a b => set_union (set_union (get_r mem_read c) (get_r mem_read a)) (get_r mem_read b)
   | ESlice e1 _ _ => get_r mem_read e1
   | ECompose args => fold_left (fun acc s => set_union acc (get_r mem_read (slot_e s))) args []
-  | EAff _ s => get_r mem_read s
+  | EAff d s => match d with EMem a _ _ => set_union (get_r mem_read s) (get_r mem_read a) | _ => get_r mem_read s end
   end.
 
 (** get_w: None where the code raises (operators, concatenations) *)
